@@ -328,6 +328,7 @@ func (c *VirtualTable) Delete(value sqlite.Value) error {
 func (c *VirtualTable) Begin() error {
 	if c.module.sc.writeTime.IsZero() {
 		c.module.sc.writeTime = time.Now()
+		c.module.sc.writeTime = verifNowOr(c.module.sc.writeTime)
 		c.module.sc.txFixedWriteTime = true
 		c.module.sc.ResetContext()
 	}
